@@ -142,7 +142,7 @@ def check_history(ctx, pid, ordered, ttl, ops, out, attrs_cache):
             spec.ttl = None if spec.ttl is None else spec.ttl // scale * int(p[1])
             scale = int(p[1])
             continue
-        if p[0] in 'ra':
+        if p[0] in 'raz':
             continue
         if k >= len(items):
             ctx.fail('missing output', inp, '', out[:300], {'kind': 'harness'})
@@ -150,6 +150,7 @@ def check_history(ctx, pid, ordered, ttl, ops, out, attrs_cache):
         item = items[k]
         k += 1
         head, _, st = item.partition(' {')
+        quiet = st.startswith('~')          # (very long histories print the table with the n_latest queries only)
         st = parse_state('{' + st)
         evs = []
         mm = re.match(r'^(u[+-]|c|p|n)\[([^\]]*)\]', head)
@@ -171,6 +172,10 @@ def check_history(ctx, pid, ordered, ttl, ops, out, attrs_cache):
         if kind == 'n':
             if pid == 'C14':
                 check_nlatest(ctx, inp, int(p[1]), [int(x) for x in body.split()], st, ordered)
+            if pid == 'C12' and sorted(st) != spec.state():
+                ctx.fail('tracker state differs from "most recent known value of every attribute"',
+                         dict(inp, at=op[:40]), spec.state()[:5], sorted(st)[:5], {'kind': 'state', 'ordered': ordered})
+                return
             continue
         evs = [e for e in body.split(',') if e]
         exp_evs, exp_verdict = [], None
@@ -185,7 +190,7 @@ def check_history(ctx, pid, ordered, ttl, ops, out, attrs_cache):
                 ctx.fail('update accepted/rejected against the rule of the property', dict(inp, at=op[:40]),
                          exp_verdict, got, {'kind': 'verdict', 'ordered': ordered})
                 return
-            if not got and pid == 'C12' and sorted(st) != before:
+            if not got and pid == 'C12' and not quiet and sorted(st) != before:
                 ctx.fail('a rejected update changed the state', dict(inp, at=op[:40]), before, st,
                          {'kind': 'rejected-changed'})
                 return
@@ -195,6 +200,11 @@ def check_history(ctx, pid, ordered, ttl, ops, out, attrs_cache):
             exp_evs = spec.expire()
         elif kind == 'p':
             exp_evs = spec.pop(int(p[1]))
+        if quiet:
+            if pid == 'C15' and evs != exp_evs:
+                ctx.fail('events differ from the life cycle of the tracks', dict(inp, at=op[:40]), exp_evs, evs, {'kind': 'events'})
+                return
+            continue
         # C12: state (as a set; dict order is not part of the property)
         if pid == 'C12' and sorted(st) != spec.state():
             ctx.fail('tracker state differs from "most recent known value of every attribute"',
@@ -364,6 +374,38 @@ def expiry_histories(rng, pool, count):
     return out
 
 
+def big_histories(rng, tier):
+    """(a) thousands of vessels in one tracker (fast paths for large tables); (b) time stamps in nanoseconds since
+    the epoch given as ints - beyond 2**53, where neighbouring ints are one float - a few nanoseconds apart"""
+    out = []
+    for n in ((2100,) if tier == 'quick' else (2047, 2048, 2100, 5000)):
+        ms = list(range(200000001, 200000001 + n))
+        rng.shuffle(ms)
+        ops = ['z:1', 't:100000']
+        stamps = rng.sample(range(1000, 90000), n)
+        for m, ts in zip(ms, stamps):
+            ops.append('u:%s:%d' % (message_line(rng, 'MessageType1', m).hex(), ts))
+        ops += ['n:1', 'n:5', 'n:32', 'n:33']
+        for m in rng.sample(ms, 5):
+            ops.append('u:%s:%d' % (message_line(rng, 'MessageType18', m).hex(), 95000 + m % 7))
+        ops += ['n:3', 'n:%d' % (n - 1)]
+        out.append((False, None, ops))
+    base = 1673259271000000357
+    for _ in range(4 if tier == 'quick' else 200):
+        ordered = rng.random() < 0.5
+        ms = [301, 302, 303]
+        ops, last = [], {}
+        t = base
+        for _ in range(rng.randint(6, 14)):
+            m = rng.choice(ms)
+            t2 = t + rng.choice([-200, -57, -56, -1, 0, 1, 56, 57, 130, 300])
+            ops.append('u:%s:%d' % (message_line(rng, rng.choice(['MessageType1', 'MessageType18']), m).hex(), t2))
+            t = max(t, t2)
+        ops += ['n:1', 'n:2', 'n:3']
+        out.append((ordered, None, ops))
+    return out
+
+
 def run_tracker_checks(ctx, pid):
     rng = ctx.rng('tracker')
     attrs_cache = {}
@@ -394,6 +436,9 @@ def run_tracker_checks(ctx, pid):
         ops = random_history(rng, pool2, rng.choice([20, 60, 200]) if ctx.tier == 'thorough' else rng.choice([20, 60]),
                              ['N', '2', '5', '10'], epoch=epoch, mix=(epoch == 1673259290 and rng.random() < 0.5))
         ops += ['n:%d' % k for k in (0, 1, 2, 3, 7)]
+        lines.append('tracker %d %s %s' % (ordered, 'N' if ttl is None else ttl, ' '.join(ops)))
+        meta.append((ordered, ttl, ops))
+    for ordered, ttl, ops in big_histories(ctx.rng('tracker-big'), ctx.tier):
         lines.append('tracker %d %s %s' % (ordered, 'N' if ttl is None else ttl, ' '.join(ops)))
         meta.append((ordered, ttl, ops))
     for ordered, ttl, ops in expiry_histories(rng, pool2, 300 if ctx.tier == 'quick' else 20000):
